@@ -221,8 +221,10 @@ def _raised_in(exc):
 #   pre  global state set before the call {"seed": numpy global RNG seed or None, "verb": triqler.qvality.VERB}
 #   rep  name of ANOTHER estimator: after the recorded call that estimator is run on the reversed data, then the
 #        recorded call is repeated on fresh arrays; both results must be bit-identical (no leftover state)
-_DT = {"f8": "float64", "f4": "float32", "i8": "int64", "i4": "int32"}
-_DT_EPS = {"f8": Fraction(1, 10 ** 12), "f4": Fraction(1, 10 ** 6), "i8": Fraction(1, 10 ** 12), "i4": Fraction(1, 10 ** 12)}
+_DT = {"f8": "float64", "f4": "float32", "i8": "int64", "i4": "int32", "u1": "uint8", "u2": "uint16", "u8": "uint64"}
+_DT_EPS = {"f8": Fraction(1, 10 ** 12), "f4": Fraction(1, 10 ** 6), "i8": Fraction(1, 10 ** 12), "i4": Fraction(1, 10 ** 12),
+           "u1": Fraction(1, 10 ** 12), "u2": Fraction(1, 10 ** 12), "u8": Fraction(1, 10 ** 12)}
+_DT_TOP = {"u1": 2 ** 8, "u2": 2 ** 16, "u8": 2 ** 53}
 
 
 def _form(c):
@@ -258,7 +260,10 @@ def _arrays2(c):
     sc = np.array(c["scores"], dtype=np.dtype(_DT[f.get("sd", "f8")]))
     tg = np.array([bool(v) for v in c["targets"]], dtype=bool)
     lay = f.get("lay", "contig")
-    fill = (sc.max() + 1000) if len(sc) else 0
+    if sc.dtype.kind == "u":
+        fill = np.iinfo(sc.dtype).max            # a filler the unsigned type holds (numpy 2 refuses uint8 + 1000)
+    else:
+        fill = (sc.max() + 1000) if len(sc) else 0
     sc, scb = _lay(sc, lay, fill)
     tg, tgb = _lay(tg, lay, True)
     return sc, tg, (scb, tgb)
@@ -379,8 +384,9 @@ def _find_interp(rec, sc):
 
 def _find_argsort(rec, sc):
     import numpy as np
+    neg = -(sc.astype(float)) if sc.dtype.kind in "ub" else -sc     # the negated VALUES: unsigned types would wrap here
     for a, r in reversed(rec.argsort):
-        if a.shape == sc.shape and np.array_equal(a, -sc) and len(rec.argsort) > 0:
+        if a.shape == sc.shape and np.array_equal(a, neg) and len(rec.argsort) > 0:
             return r
     return None
 
@@ -549,7 +555,7 @@ F_SHAPES = ("mix", "rounded", "integer", "half-ties", "t3", "gap", "expo", "prob
 ONE_SIDED = ("expo", "proba", "lognormal")     # decoy scores pile up at the low end of the range
 AFFINES = ("id", "x1024", "x2^-10", "+10000", "-100", "unit")
 INT_AFFINES = ("id", "x1024", "+10000", "-100")
-F_DTYPES = ("f8", "f4", "f8", "f4", "i8", "f8", "f4", "i4")
+F_DTYPES = ("f8", "f4", "f8", "f4", "i8", "f8", "f4", "i4", "u1", "u2", "u8")
 LAYOUTS = ("contig", "strided", "readonly", "negstride", "col2d")
 CALLS = ("pos", "kw", "default")
 FTS = (0.2, 0.35, 0.5, 0.65, 0.8)
@@ -641,7 +647,17 @@ def gen_forms(ctx):
         if sd in ("i8", "i4"):
             shape = "integer"
             aff = aff if aff in INT_AFFINES else rng.choice(INT_AFFINES)
+        if sd in _DT_TOP:
+            shape = "integer"
+            aff = rng.choice({"u1": ("id",), "u2": ("id", "+10000"), "u8": ("id", "x1024", "+10000")}[sd])
         sc, tg = _scores2(rng, n, shape, fts[k])
+        if sd in _DT_TOP:
+            # unsigned scores (ranks, counts, a uint8 Parquet feature): shifted so that the worst score is 0 — every
+            # estimator that sorts by the negated score wraps here unless it leaves the unsigned type first
+            lo = min(sc)
+            sc = [v - lo for v in sc]
+            if max(sc) >= _DT_TOP[sd] or (aff == "x1024" and max(sc) * 1024 >= _DT_TOP[sd]):
+                sc = [float(int(v) % 200) for v in sc]
         sc = _affine(sc, aff)
         if sd == "f4":
             sc = [float(np.float32(s)) for s in sc]
